@@ -3,7 +3,8 @@ import fcntl, hashlib, json, os, shutil, subprocess, sys, time
 
 VERIF = os.path.dirname(os.path.dirname(os.path.abspath(__file__)))
 REPO = os.environ.get("CLAP_REPO", "/repo")
-CACHE = os.path.join(VERIF, ".cache")
+CACHE = os.environ.get("VERIF_CACHE") or os.path.join(VERIF, ".cache")
+EVIDENCE = os.environ.get("VERIF_EVIDENCE_DIR") or os.path.join(VERIF, "evidence")
 DRIVER = os.path.join(VERIF, "driver", "target", "debug", "clapfacts")
 
 sys.path.insert(0, os.path.join(VERIF, "lib"))
@@ -128,8 +129,8 @@ def finish(pid, res, tier, t0, explanation, trusted, assumptions, facts_info, fx
         uviol.append(v)
     new = [v for v in uviol if v["key"] not in known_keys]
     listed = [v for v in uviol if v["key"] in known_keys]
-    os.makedirs(os.path.join(VERIF, "evidence"), exist_ok=True)
-    os.makedirs(os.path.join(VERIF, "evidence", "replay"), exist_ok=True)
+    os.makedirs(EVIDENCE, exist_ok=True)
+    os.makedirs(os.path.join(EVIDENCE, "replay"), exist_ok=True)
     rules = {}
     for i in res.items:
         r = rules.setdefault(i["rule"], {"instances": 0, "ok": 0, "audited": 0, "violations": 0})
@@ -176,7 +177,7 @@ def finish(pid, res, tier, t0, explanation, trusted, assumptions, facts_info, fx
         "wall_s": round(time.time() - t0, 3),
         "violations": len(new),
     }
-    with open(os.path.join(VERIF, "evidence", "%s.json" % pid), "w") as fh:
+    with open(os.path.join(EVIDENCE, "%s.json" % pid), "w") as fh:
         json.dump(ev, fh, indent=1)
     for k in listed:
         print("KNOWN-FINDING: property=%s %s :: %s" % (pid, k["key"], known_keys[k["key"]]["what"]))
@@ -190,7 +191,7 @@ def finish(pid, res, tier, t0, explanation, trusted, assumptions, facts_info, fx
         print("  %-8s instances=%d ok=%d audited=%d violations=%d" % (r, c["instances"], c["ok"], c["audited"], c["violations"]))
     if new:
         for n, v in enumerate(new):
-            rp = os.path.join(VERIF, "evidence", "replay", "%s-%d.json" % (pid, n))
+            rp = os.path.join(EVIDENCE, "replay", "%s-%d.json" % (pid, n))
             with open(rp, "w") as fh:
                 json.dump(v, fh, indent=1)
             print("  -> %s at %s: %s" % (v["key"], v["where"], v["detail"]))
